@@ -288,7 +288,7 @@ class DaskScenario:
         self.programs = variant['programs']
         self.n = len(self.programs)
         self.nested = variant.get('nested', False)
-        self.name = f"dask{'-nested' if self.nested else ''}-{self.n}t"
+        self.name = f"dask{'-nested' if self.nested else ''}{'-bare' if variant.get('bare') else ''}-{self.n}t"
 
     def _make(self):
         from katdal.lazy_indexer import DaskLazyIndexer
@@ -298,6 +298,9 @@ class DaskScenario:
             inner = DaskLazyIndexer(base, (slice(1, 4), slice(None)), [_x3p1])
             outer = DaskLazyIndexer(inner, (slice(None), [0, 2, 3, 5]), [_neg])
             return dict(outer=outer, inner=inner)
+        if self.variant.get('bare'):
+            # no first-stage selection, no transforms (how the v4 reader builds its timestamps-like indexers)
+            return dict(outer=DaskLazyIndexer(base))
         ind = DaskLazyIndexer(base, (slice(1, 4), [0, 2, 3, 5]), [_x3p1])
         return dict(outer=ind)
 
@@ -908,6 +911,9 @@ def variants(ctx):
     out.append(('dask', dict(nested=True, programs=pick([['outer.getitem'], ['inner.shape']],
                                                         [['outer.shape'], ['inner.getitem']],
                                                         [['inner.dataset'], ['outer.dataset']])), b2, q(300, 2500)))
+    out.append(('dask', dict(bare=True, programs=pick([['outer.shape'], ['outer.dataset']],
+                                                      [['outer.len', 'outer.getitem'], ['outer.getitem']],
+                                                      [['outer.dataset'], ['outer.shape', 'outer.len']])), b2, q(300, 2500)))
     # SpectralWindow.channel_freqs
     out.append(('spw', dict(programs=pick([['freqs', 'freq3'], ['freqs']], [['freq3'], ['freqs', 'freqs']])),
                 q(3, 4), q(300, 3000)))
